@@ -10,7 +10,7 @@ DRIVER = dev_ctl.DRIVER
 REQUIRED_THEOREMS = ["stage_follows_setup", "data_in_only_after_in_setup", "in_token_answered_only_in_data_or_status_in", "out_data_answered_only_in_status_out", "setup_always_restarts", "other_endpoint_tokens_are_stutter", "other_endpoint_transactions_are_stutter",
                      "ctrl_stage_restarts_on_setup", "handler_restarts_on_setup", "handshake_forwarded_only_for_own_in_token",
                      "address_strobe_only_on_gated_ack_in_set_address", "unhandled_stalls", "requests_come_from_their_stage",
-                     "cycle_refines_event", "cycle_refines_event_run"]
+                     "cyc_stage_follows_setup", "cyc_requests_follow_setup", "cycle_refines_event", "cycle_refines_event_run"]
 RULE = dev_ctl.RULE + dev_ctl.CYC_RULE
 ASSUMPTIONS = dev_ctl.ASSUMPTIONS
 PARTIAL = dev_ctl.PARTIAL["C07"]
